@@ -25,6 +25,8 @@ fn fnum(n: &Value) -> f64 {
         Some("inf") => f64::INFINITY,
         Some("ninf") => f64::NEG_INFINITY,
         Some("negzero") => -0.0,
+        Some("tiny") => 1e-45,          // a subnormal f32 once narrowed (and a small normal f64)
+        Some("tiny64") => 5e-324,       // the smallest subnormal f64
         _ => n["p"].as_f64().unwrap_or(0.0) / n["q"].as_f64().unwrap_or(1.0),
     }
 }
@@ -127,6 +129,7 @@ impl<'a> Serialize for Node<'a> {
 fn float_tag(n: &serde_json::Number) -> Value {
     match n.as_f64() {
         Some(f) if f == 0.0 && f.is_sign_negative() => json!({"t":"num","p":0,"q":1,"z":true}),
+        Some(f) if f != 0.0 && f.abs() < 1e-30 => json!({"t":"num","tiny":true}),
         _ => num_to_tagged(n),
     }
 }
@@ -274,10 +277,10 @@ where
     (sa, sb, rt)
 }
 
-pub const TYPES: [&str; 45] = ["bool", "i8", "u8", "i32", "i64", "u64", "f64", "char", "String", "Option<i32>", "()", "Unit", "Newtype",
+pub const TYPES: [&str; 46] = ["bool", "i8", "u8", "i32", "i64", "u64", "f64", "char", "String", "Option<i32>", "()", "Unit", "Newtype",
     "Vec<i32>", "Vec<u8>", "(i32,String)", "Pair", "Point", "E", "BTreeMap<String,i32>", "Vec<Option<bool>>", "Outer", "Option<E>", "Vec<Point>",
     "BTreeMap<UserId,Vec<u32>>", "BTreeMap<char,i32>", "BTreeMap<Color,i32>", "Flat", "Vec<UserId>",
-    "[i32;2]", "Box<Point>", "(UserId,i32)", "BTreeMap<String,Option<Point>>", "IT", "AT", "UT", "FirstEntry", "Vec<IT>", "Strict", "Vec<Strict>", "ITU", "UTU", "FlatU", "Level", "Vec<Level>"];
+    "[i32;2]", "Box<Point>", "(UserId,i32)", "BTreeMap<String,Option<Point>>", "IT", "AT", "UT", "FirstEntry", "Vec<IT>", "Strict", "Vec<Strict>", "ITU", "UTU", "FlatU", "Level", "Vec<Level>", "f32"];
 
 fn dec_by_name(ty: &str, var: &Variable, val: &Value) -> (String, String, bool) {
     match ty {
@@ -328,6 +331,7 @@ fn dec_by_name(ty: &str, var: &Variable, val: &Value) -> (String, String, bool) 
         "FlatU" => dec::<FlatU>(var, val),
         "Level" => dec::<Level>(var, val),
         "Vec<Level>" => dec::<Vec<Level>>(var, val),
+        "f32" => dec::<f32>(var, val),
         _ => ("?".into(), "?".into(), false),
     }
 }
@@ -425,13 +429,13 @@ where
     (img(T::deserialize(var.clone()).ok()), img(serde_json::from_value::<T>(val.clone()).ok()))
 }
 
-pub const MODEL_TYPES: [(&str, &str); 45] = [("bool", "bool"), ("i8", "i8"), ("u8", "u8"), ("i32", "i32"), ("i64", "i64"), ("u64", "u64"), ("f64", "f64"),
+pub const MODEL_TYPES: [(&str, &str); 46] = [("bool", "bool"), ("i8", "i8"), ("u8", "u8"), ("i32", "i32"), ("i64", "i64"), ("u64", "u64"), ("f64", "f64"),
     ("char", "char"), ("String", "String"), ("OptI32", "Option<i32>"), ("unit", "()"), ("Unit", "Unit"), ("Newtype", "Newtype"), ("VecI32", "Vec<i32>"),
     ("VecU8", "Vec<u8>"), ("TupI32String", "(i32,String)"), ("Pair", "Pair"), ("Point", "Point"), ("E", "E"), ("MapStringI32", "BTreeMap<String,i32>"),
     ("VecOptBool", "Vec<Option<bool>>"), ("Outer", "Outer"), ("OptE", "Option<E>"), ("VecPoint", "Vec<Point>"), ("MapUserIdVecU32", "BTreeMap<UserId,Vec<u32>>"),
     ("MapCharI32", "BTreeMap<char,i32>"), ("MapColorI32", "BTreeMap<Color,i32>"), ("Flat", "Flat"), ("VecUserId", "Vec<UserId>"), ("ArrI32x2", "[i32;2]"),
     ("BoxPoint", "Box<Point>"), ("TupUserIdI32", "(UserId,i32)"), ("MapStringOptPoint", "BTreeMap<String,Option<Point>>"), ("IT", "IT"), ("AT", "AT"),
-    ("UT", "UT"), ("FirstEntry", "FirstEntry"), ("VecIT", "Vec<IT>"), ("Strict", "Strict"), ("VecStrict", "Vec<Strict>"), ("ITU", "ITU"), ("UTU", "UTU"), ("FlatU", "FlatU"), ("Level", "Level"), ("VecLevel", "Vec<Level>")];
+    ("UT", "UT"), ("FirstEntry", "FirstEntry"), ("VecIT", "Vec<IT>"), ("Strict", "Strict"), ("VecStrict", "Vec<Strict>"), ("ITU", "ITU"), ("UTU", "UTU"), ("FlatU", "FlatU"), ("Level", "Level"), ("VecLevel", "Vec<Level>"), ("f32", "f32")];
 
 fn dec_img_by_name(ty: &str, var: &Variable, val: &Value) -> Option<(Value, Value)> {
     Some(match ty {
@@ -480,6 +484,7 @@ fn dec_img_by_name(ty: &str, var: &Variable, val: &Value) -> Option<(Value, Valu
         "FlatU" => dec_img::<FlatU>(var, val),
         "Level" => dec_img::<Level>(var, val),
         "Vec<Level>" => dec_img::<Vec<Level>>(var, val),
+        "f32" => dec_img::<f32>(var, val),
         _ => return None,
     })
 }
